@@ -47,7 +47,7 @@ def direct(scr, out):
 def run(ctx):
     if not hc.ensure_builds(ctx): hc.finish(ctx, 'builds failed')
     n = 500 if ctx.quick() else 12000
-    H, impl, model, dis, hits = hc.run_profile(ctx, profiles.with_rotation(profiles.C06, 0.12, disable=True), n, trigger=trigger, extra_oracle=direct,
+    H, impl, model, dis, hits = hc.run_profile(ctx, profiles.with_scenarios(profiles.with_rotation(profiles.C06, 0.12, disable=True), 0.1), n, trigger=trigger, extra_oracle=direct,
         claims=lambda op, a, b: op in ('EN', 'DE', 'RF', 'UPD'))
     if not ctx.quick() and not hits:
         x = hist.x
